@@ -348,6 +348,9 @@ func (o *Object) NextElementBytes(dst *Iter) (name []byte, t Type, err error) {
 	case TagObjectEnd:
 		return nil, TypeNone, nil
 	case TagNop:
+		if v&JSONVALUEMASK == 0 {
+			return nil, TypeNone, errors.New("object: invalid nop skip")
+		}
 		o.off += int(v & JSONVALUEMASK)
 		return o.NextElementBytes(dst)
 	default:
